@@ -55,6 +55,16 @@ pub fn usize_arg(rng: &mut Rng) -> usize {
     }
 }
 
+/// an argument a few f64 steps away from the value currently stored (seeded change C20f: a setter that drops an update
+/// "equal within epsilon" to the stored value); for a stored 0 the neighbours are tiny positives
+pub fn near(rng: &mut Rng, cur: f64) -> f64 {
+    if !cur.is_finite() { return cur; }
+    if cur == 0.0 { return *rng.pick(&[5e-324, 1e-300, 1e-17, 2.2e-16, -5e-324]); }
+    let k = rng.range(1, 3) as u64;
+    let b = cur.to_bits();
+    f64::from_bits(if rng.chance(0.5) { b + k } else { b - k })
+}
+
 /// apply one random setter; returns its protocol text
 pub fn random_op(rng: &mut Rng, c: &mut Condition, n: usize) -> String {
     let mut s = String::new();
@@ -81,7 +91,7 @@ pub fn random_op(rng: &mut Rng, c: &mut Condition, n: usize) -> String {
         }
         3 => {
             let i = rng.below(n);
-            let f = boundary_f64(rng, 0.0, 1.0);
+            let f = if rng.chance(0.25) { near(rng, c.get_msd_threshold(i)) } else { boundary_f64(rng, 0.0, 1.0) };
             c.set_msd_threshold(i, f);
             push_s(&mut s, "msd");
             push_u(&mut s, i);
@@ -89,14 +99,14 @@ pub fn random_op(rng: &mut Rng, c: &mut Condition, n: usize) -> String {
         }
         4 => {
             let i = rng.below(n);
-            let f = boundary_f64(rng, 0.0, 2.0);
+            let f = if rng.chance(0.25) { near(rng, c.get_gv_weight(i)) } else { boundary_f64(rng, 0.0, 2.0) };
             c.set_gv_weight(i, f);
             push_s(&mut s, "gv");
             push_u(&mut s, i);
             push_f(&mut s, f);
         }
         5 => {
-            let f = boundary_f64(rng, 1e-6, 50.0);
+            let f = if rng.chance(0.25) { near(rng, c.get_speed()) } else { boundary_f64(rng, 1e-6, 50.0) };
             c.set_speed(f);
             push_s(&mut s, "speed");
             push_f(&mut s, f);
@@ -108,19 +118,19 @@ pub fn random_op(rng: &mut Rng, c: &mut Condition, n: usize) -> String {
             push_u(&mut s, b as usize);
         }
         7 => {
-            let f = boundary_f64(rng, 0.0, 1.0);
+            let f = if rng.chance(0.25) { near(rng, c.get_alpha()) } else { boundary_f64(rng, 0.0, 1.0) };
             c.set_alpha(f);
             push_s(&mut s, "alpha");
             push_f(&mut s, f);
         }
         8 => {
-            let f = boundary_f64(rng, 0.0, 1.0);
+            let f = if rng.chance(0.25) { near(rng, c.get_beta()) } else { boundary_f64(rng, 0.0, 1.0) };
             c.set_beta(f);
             push_s(&mut s, "beta");
             push_f(&mut s, f);
         }
         _ => {
-            let f = boundary_f64(rng, -24.0, 24.0);
+            let f = if rng.chance(0.25) { near(rng, c.get_additional_half_tone()) } else { boundary_f64(rng, -24.0, 24.0) };
             c.set_additional_half_tone(f);
             push_s(&mut s, "ht");
             push_f(&mut s, f);
@@ -137,7 +147,15 @@ pub fn history_line(rng: &mut Rng, engine: &Engine, k: usize) -> String {
     let mut dumps = String::new();
     dump(&e.condition, n, &mut dumps);
     for _ in 0..k {
-        ops.push_str(&random_op(rng, &mut e.condition, n));
+        if rng.chance(0.08) {
+            // the voice defaults loaded again into the condition in use: header values are taken, the user's
+            // volume / speed / alignment / beta / half tone stay (seeded change C15f)
+            let vs = e.voices.clone();
+            e.condition.load_model(&vs).expect("load_model");
+            push_s(&mut ops, "load");
+        } else {
+            ops.push_str(&random_op(rng, &mut e.condition, n));
+        }
         dump(&e.condition, n, &mut dumps);
     }
     push_s(&mut line, "nops");
